@@ -2129,17 +2129,9 @@ def classify(o, failure):
         return None
     if ("ended with %s " % outcome) not in failure and ("raised %s " % outcome) not in failure:
         return None
-    if outcome == "OSError" and o.get("entry") in FILEISH and o.get("lxml_file") == "OSError":
-        # lxml itself (without any odML code) answers the bytes of this file with OSError
-        return "xml-from-file-lxml-oserror"
-    if outcome == "ValueError" and o.get("entry") == "stringio" and o.get("decl_enc"):
-        return "xml-from-file-text-stream-declaration"
-    if o.get("sw") and o.get("via") in ("JSON", "YAML") and o.get("quiet_outcome") == "doc":
-        # the readers return a Document; the validation report that ODMLReader prints afterwards raises
-        if outcome == "TypeError" and o.get("nonstr_name"):
-            return "odmlreader-validation-report-nonstring-name"
-        if outcome == "IndexError" and o.get("nonstr_dep"):
-            return "odmlreader-validation-report-nonstring-dependency"
+    # The four round-2 findings (xml-from-file-lxml-oserror, xml-from-file-text-stream-declaration,
+    # odmlreader-validation-report-nonstring-name / -dependency) are fixed (known_findings.d/C16.json): no open
+    # finding is left to classify into, a regression of any of them is a violation again.
     return None
 
 
